@@ -36,10 +36,11 @@ func c18Offset(c *core.Ctx, r *core.Reporter) {
 	runeAt := c.Func("language/lexer", "runeAt")
 	makeTok := c.Func("language/lexer", "makeToken")
 	synErr := c.Func("gqlerrors", "NewSyntaxError")
-	if runeAt == nil || makeTok == nil || synErr == nil {
-		r.Unknown("lexer", token.NoPos, "runeAt / makeToken / NewSyntaxError not found")
+	if runeAt == nil || synErr == nil {
+		r.Unknown("lexer", token.NoPos, "runeAt / NewSyntaxError not found")
 		return
 	}
+	// makeTok may be nil: the constructor written in place as Token{Start: …, End: …} literals (handled with the sinks)
 	var fns []*ssa.Function
 	for _, m := range sp.Members {
 		if fn, ok := m.(*ssa.Function); ok && fn.Blocks != nil {
@@ -181,8 +182,8 @@ func c18Offset(c *core.Ctx, r *core.Reporter) {
 	type sinkSite struct {
 		host  string
 		own   bool
-		ci    ssa.CallInstruction
-		idxs  []int
+		pos   token.Pos
+		vals  []ssa.Value // the byte-domain operands
 		what  string
 		where string
 	}
@@ -209,11 +210,29 @@ func c18Offset(c *core.Ctx, r *core.Reporter) {
 		}
 		for _, ci := range core.CallSites(fn) {
 			cal := ci.Common().StaticCallee()
-			switch cal {
-			case synErr:
-				all = append(all, sinkSite{host, own, ci, []int{1}, "NewSyntaxError.position", fnKey(fn)})
-			case makeTok:
-				all = append(all, sinkSite{host, own, ci, []int{1, 2}, "makeToken.start/end", fnKey(fn)})
+			args := ci.Common().Args
+			switch {
+			case cal == synErr && len(args) > 1:
+				all = append(all, sinkSite{host, own, ci.Pos(), []ssa.Value{args[1]}, "NewSyntaxError.position", fnKey(fn)})
+			case makeTok != nil && cal == makeTok && len(args) > 2:
+				all = append(all, sinkSite{host, own, ci.Pos(), []ssa.Value{args[1], args[2]}, "makeToken.start/end", fnKey(fn)})
+			}
+		}
+		// Token literals (makeToken written in place): the values stored into Start / End of each literal
+		if fn != makeTok {
+			lits := core.LiteralStores(fn, "Token")
+			var allocs []*ssa.Alloc
+			for al := range lits {
+				allocs = append(allocs, al)
+			}
+			sort.Slice(allocs, func(i, j int) bool { return allocs[i].Pos() < allocs[j].Pos() })
+			for _, al := range allocs {
+				var vals []ssa.Value
+				vals = append(vals, lits[al]["Start"]...)
+				vals = append(vals, lits[al]["End"]...)
+				if len(vals) > 0 {
+					all = append(all, sinkSite{host, own, al.Pos(), vals, "makeToken.start/end", fnKey(fn)})
+				}
 			}
 		}
 	}
@@ -224,22 +243,22 @@ func c18Offset(c *core.Ctx, r *core.Reporter) {
 		if all[i].own != all[j].own {
 			return all[i].own
 		}
-		return all[i].ci.Pos() < all[j].ci.Pos()
+		return all[i].pos < all[j].pos
 	})
 	per := map[string]int{}
 	for _, sk := range all {
 		per[sk.host+"/"+sk.what]++
 		key := fmt.Sprintf("%s/%s#%d", sk.host, sk.what, per[sk.host+"/"+sk.what])
 		bad := false
-		for _, i := range sk.idxs {
-			if tainted[sk.ci.Common().Args[i]] {
+		for _, v := range sk.vals {
+			if tainted[v] {
 				bad = true
 			}
 		}
 		if bad {
-			r.Bad(key, sk.ci.Pos(), "%s passes a rune count (an integer advanced by 1 per character while the byte offset advances by the character's width) to %s, which is interpreted as a byte offset: after a multi-byte character the reported line/column and the token bounds are wrong", sk.where, sk.what)
+			r.Bad(key, sk.pos, "%s passes a rune count (an integer advanced by 1 per character while the byte offset advances by the character's width) to %s, which is interpreted as a byte offset: after a multi-byte character the reported line/column and the token bounds are wrong", sk.where, sk.what)
 		} else {
-			r.OK(key, sk.ci.Pos(), "byte-domain argument")
+			r.OK(key, sk.pos, "byte-domain argument")
 		}
 	}
 }
